@@ -308,7 +308,7 @@ func genKeyCase(t *rapid.T) KeyCase {
 }
 
 func TestC20Keys(t *testing.T) {
-	evid.Prop(t, "keys", evid.R.N(1200, 5000), genKeyCase, keyOracle)
+	evid.Prop(t, "keys", evid.R.N(1200, 3000), genKeyCase, keyOracle)
 }
 
 // TestC20KeySweep: every offset and every truncation length of the private key file (≈ 330
